@@ -7,6 +7,7 @@ package main
 import (
 	"encoding/hex"
 	"fmt"
+	"os"
 	"sort"
 	"strings"
 	"time"
@@ -272,6 +273,10 @@ func (m *Machine) intrinsic(fn *ssa.Function, args []Val, caller *frame) handler
 		// structural identity of two symbolic results: used for "same value for
 		// every input" claims that need no solver call when the terms coincide
 		return func() Val { return valEq(args[0].(Iface).V, args[1].(Iface).V) }
+	case "vOr":
+		return func() Val { return Or(args[0].(*Term), args[1].(*Term)) }
+	case "vAnd":
+		return func() Val { return And(args[0].(*Term), args[1].(*Term)) }
 	case "vEngine":
 		return func() Val { return tTrue }
 	}
@@ -342,7 +347,15 @@ func (m *Machine) decide(goal *Term) (string, Model) {
 	}
 	m.sol.Push()
 	m.sol.Assert(goal)
+	t0 := time.Now()
 	r := m.sol.Check("assert", m.cfg.AssertTimeout)
+	if d := time.Since(t0); slowLog > 0 && d > slowLog {
+		cs := goal.String()
+		if len(cs) > 1500 {
+			cs = cs[:1500]
+		}
+		fmt.Fprintf(os.Stderr, "SLOW-ASSERT %v %s pc=%d\n   %s\n", d, r, len(m.pc), cs)
+	}
 	var model Model
 	if r == "sat" {
 		var ok bool
